@@ -629,6 +629,33 @@ theorem shape_membership_by_object :
     Gen.linkNamedByTargetId = true ∧ Gen.linkedGroupIsFirstEntry = true ∧ Gen.sampledRefuses = true := by
   decide
 
+/-- the DataFrame branch of the `DimensionLink.unit` getter, as it stands in `nixio/dimensions.py`, executed on
+any frame content and column, is the model's `linkFrameUnit`: None for a frame without units, the entry with the
+empty text read as None otherwise (an edit that drops the test for a missing `units` attribute, or reads the entry
+raw, breaks this) -/
+theorem shape_frame_unit_getter (fd : FrameData) (c : Nat) :
+    runUnitGetter Gen.frameUnitGetterBody fd c = linkFrameUnit fd c := by
+  unfold linkFrameUnit
+  cases hu : fd.units with
+  | none => simp [runUnitGetter, Gen.frameUnitGetterBody, execU, hu]
+  | some us =>
+    cases hc : us[c]? with
+    | none => simp [runUnitGetter, Gen.frameUnitGetterBody, execU, hu, hc]
+    | some u => simp [runUnitGetter, Gen.frameUnitGetterBody, execU, hu, hc]
+
+/-- … and the DataFrame branch of the setter is the model's `setFrameUnit`: a frame without units gets one empty
+entry per column first, None is written as the empty text, the list goes back into the `units` attribute -/
+theorem shape_frame_unit_setter (fd : FrameData) (c : Nat) (v : Option String) :
+    runUnitSetter Gen.frameUnitSetterBody fd c v = setFrameUnit fd c v := by
+  unfold setFrameUnit
+  cases hu : fd.units with
+  | none =>
+    by_cases hc : c < fd.cols.length <;>
+      simp [runUnitSetter, Gen.frameUnitSetterBody, execU, hu, hc]
+  | some us =>
+    by_cases hc : c < us.length <;>
+      simp [runUnitSetter, Gen.frameUnitSetterBody, execU, hu, hc]
+
 /-- The reachable-state form: in every state reached by dimension and structural operations no
 range dimension has both ticks and a link.  `ticks_link_exclusive_invariant` proves the step for
 the operations that write ticks, links and data; lifting it to all histories additionally needs
